@@ -1,4 +1,86 @@
-import Emboss.Model.Text
+/-
+C06 — Text format output reads back to the same structure.
+
+Property theorems only.  Models: Emboss/Model/Text.lean (integer codec, tokenizer),
+Emboss/Model/TextTree.lean (value/struct/array writer and reader);
+spec: Emboss/Spec/Text.lean; helper lemmas: Emboss/Lemmas/Text*.lean.
+-/
+import Emboss.Lemmas.TextIntWrite
 namespace Emboss.Text
-theorem C06_placeholder : True := trivial
+open Spec
+
+/-! ## Integer text encoding and decoding are mutually inverse -/
+
+/-- For each of the eight integer types, every value of the type, every base the writer
+supports and both grouping settings: `DecodeInteger` applied to what
+`WriteIntegerToTextStream` wrote yields the value.  (All values: induction over the
+writer's digit recursion, `writeLoop_value`; includes `lowest()`.) -/
+theorem C06_int_roundtrip (T : IntTy) (x : Int) (base : Base) (grouping : Bool)
+    (hx : T.InRange x) : decodeInt T (writeInt T x base grouping) = some x := by
+  obtain ⟨h1, h2⟩ := writeInt_textValue T x base grouping hx
+  rw [decodeInt_eq, if_neg h1, h2]
+  simp [inRangeOnly, hx]
+
+/-- Non-vacuity / tests (`decide` over literals): INT64_MIN in binary with grouping, and
+its text. -/
+example : IntTy.i64.InRange (-9223372036854775808) ∧
+    String.ofList (writeInt .i64 (-9223372036854775808) .b10 true) = "-9_223_372_036_854_775_808" ∧
+    String.ofList (writeInt .i8 (-128) .b2 true) = "-0b10000000" ∧
+    String.ofList (writeInt .u16 65535 .b16 true) = "0xffff" ∧
+    String.ofList (writeInt .u32 65536 .b16 true) = "0x1_0000" := by decide +kernel
+
+/-! ## Malformed numbers are rejected rather than wrapped -/
+
+/-- Whatever `DecodeInteger` accepts, it returns the mathematical value denoted by the
+text's digits (`Spec.textValue`: sign, base prefix, digits most-significant first,
+`_` ignored), and that value is in the range of the type: no wrap-around. -/
+theorem C06_decode_no_wrap (T : IntTy) (s : List Char) (v : Int)
+    (h : decodeInt T s = some v) : textValue T.signed s = some v ∧ T.InRange v := by
+  rw [decodeInt_eq] at h
+  split at h
+  · cases h
+  · cases hv : textValue T.signed s with
+    | none => rw [hv] at h; cases h
+    | some w =>
+      rw [hv] at h
+      simp only [Option.bind_some, inRangeOnly] at h
+      split at h
+      · cases h; exact ⟨rfl, by assumption⟩
+      · cases h
+
+/-- Texts that are not numbers (`textValue = none`: nothing after sign/prefix, a
+character that is not a digit of the base, a `-` for an unsigned type) and numbers
+outside the range of the type are rejected. -/
+theorem C06_decode_rejects (T : IntTy) (s : List Char)
+    (h : textValue T.signed s = none ∨ ∃ v, textValue T.signed s = some v ∧ ¬ T.InRange v) :
+    decodeInt T s = none := by
+  rw [decodeInt_eq]
+  split
+  · rfl
+  · rcases h with h | ⟨v, h, hr⟩
+    · rw [h]; rfl
+    · rw [h]; simp [inRangeOnly, hr]
+
+/-- Conversely every in-range number text is accepted, unless its very first character
+is `_` (the only placement of `_` the code refuses). -/
+theorem C06_decode_accepts (T : IntTy) (s : List Char) (v : Int)
+    (h : textValue T.signed s = some v) (hr : T.InRange v) (h0 : s.head? ≠ some '_') :
+    decodeInt T s = some v := by
+  rw [decodeInt_eq, if_neg h0, h]
+  simp [inRangeOnly, hr]
+
+/-- Non-vacuity / tests: one past the range, sign on an unsigned type, empty after the
+prefix, foreign digit, leading `_` are rejected; odd but harmless `_` placements and
+upper-case prefixes are accepted with the exact value (observed leniency). -/
+example :
+    decodeInt .u8 "256".toList = none ∧ decodeInt .i8 "-129".toList = none ∧
+    decodeInt .u8 "-1".toList = none ∧ decodeInt .u8 "0x".toList = none ∧
+    decodeInt .i8 "-".toList = none ∧ decodeInt .u8 "0b12".toList = none ∧
+    decodeInt .u8 "_1".toList = none ∧ decodeInt .u64 "18446744073709551616".toList = none ∧
+    decodeInt .u8 "0x_".toList = some 0 ∧ decodeInt .u8 "1__2_".toList = some 12 ∧
+    decodeInt .i8 "-_1".toList = some (-1) ∧ decodeInt .u8 "0XfF".toList = some 255 ∧
+    decodeInt .i8 "-128".toList = some (-128) ∧
+    textValue true "-128".toList = some (-128) ∧ textValue false "-1".toList = none := by
+  decide +kernel
+
 end Emboss.Text
